@@ -297,14 +297,14 @@ def scn_constants(scn):
 # ---------------------------------------------------------------------------
 # seeded random histories (beyond the model-checked constants)
 DEFAULT_W = dict(Cycle=30, Submit=20, RemoveApp=6, SetPrio=6, Move=4, State=8, MarkUnschedule=3,
-                 RemoveServer=4, AddServer=4, Blacklist=4, Group=5, Tick=6, Renew=0)
+                 RemoveServer=4, AddServer=4, Blacklist=4, Group=5, Tick=6, Renew=0, SetVu=1)
 WEIGHTS = {
     # capacity pressure: arrivals, priority changes, few departures
     'pressure': dict(DEFAULT_W, Submit=30, SetPrio=14, RemoveApp=2, Move=2, Tick=8, Renew=4, Group=1,
                      Blacklist=1, MarkUnschedule=1),
     # leases against the clock
     'lease': dict(DEFAULT_W, Submit=26, Tick=16, SetPrio=12, Renew=10, RemoveApp=2, Move=6, Group=1,
-                  Blacklist=1, RemoveServer=2, AddServer=3),
+                  Blacklist=1, RemoveServer=2, AddServer=3, SetVu=8),
     # server failure handling
     'failure': dict(DEFAULT_W, State=26, Tick=16, MarkUnschedule=8, Blacklist=8, Submit=18, RemoveApp=2,
                     Move=1, Group=1, RemoveServer=2, AddServer=2),
@@ -403,13 +403,16 @@ def gen_random(scn, rng, depth, weights=None):
             hist.append(('Cycle', []))
         elif kind == 'Tick':
             hist.append(('Tick', [rng.choice([1, 1, 2, 3])]))
+        elif kind == 'SetVu' and servers:
+            hist.append(('SetVu', [rng.choice(sorted(servers)),
+                                   rng.choice([p['vu'] for p in scn['sprofiles']] + [3, 5])]))
     hist.append(('Cycle', []))
     return hist
 
 
 KINDS = ['Submit', 'RemoveApp', 'SetPrio', 'Move', 'Down', 'Up', 'Freeze', 'MarkUnschedule',
          'RemoveServer', 'AddServer', 'Blacklist', 'Unblacklist', 'SetCount', 'DelGroup', 'Renew',
-         'Tick']
+         'Tick', 'SetVu']
 
 
 def gen_tuples(scn, rng, length=4):
@@ -462,6 +465,9 @@ def gen_tuples(scn, rng, length=4):
             hist.append(('DelGroup', [rng.choice(groups)]))
         elif k == 'Tick':
             hist.append(('Tick', [rng.choice([1, 2, 3])]))
+        elif k == 'SetVu' and servers:
+            hist.append(('SetVu', [rng.choice(sorted(servers)),
+                                   rng.choice([p['vu'] for p in scn['sprofiles']] + [3, 5])]))
         if rng.random() < 0.4:
             hist.append(('Cycle', []))
     hist.append(('Cycle', []))
@@ -498,7 +504,7 @@ def validate(traces, timeout=1200, cfg='SchedTrace.cfg'):
 # TLC on Sched.tla
 ALL_EVENTS = ['Submit', 'RemoveApp', 'SetPrio', 'Move', 'Down', 'Up', 'Freeze', 'MarkUnschedule',
               'RemoveServer', 'AddServer', 'Blacklist', 'Unblacklist', 'SetCount', 'DelGroup',
-              'Renew', 'Tick']
+              'Renew', 'Tick', 'SetVu']
 ALL_DEFECTS = ['shape_no_traits', 'no_partition_fix', 'evict_no_ancestors',
                'identity_kept_on_skip', 'adjust_xor']
 
